@@ -13,6 +13,7 @@ import (
 	"fmt"
 	"math/rand/v2"
 	"os"
+	"os/exec"
 	"path/filepath"
 	"strings"
 	"time"
@@ -44,6 +45,9 @@ type Case struct {
 	Follow []Op `json:"follow,omitempty"`
 	// Stride samples the crash points (1 = every point).
 	Stride int `json:"stride,omitempty"`
+	// Strace: additionally kill the session with strace at the N-th open/write/rename
+	// system call on the persistence files (independent of the hooks).
+	Strace bool `json:"strace,omitempty"`
 }
 
 // ---------- the session sub-process ----------
@@ -53,7 +57,9 @@ type sessIn struct {
 	Limit   int    `json:"limit"`
 	Ops     []Op   `json:"ops"`
 	CrashAt int    `json:"crash_at"` // 1-based crash point to die at; 0 = never
-	Vars    []string
+	// Progress: file that receives the index of each operation before it starts
+	Progress string `json:"progress,omitempty"`
+	Vars     []string
 }
 
 type opOut struct {
@@ -143,7 +149,10 @@ func sessMain(args []string) int {
 			os.Exit(137) // process death: no deferred close, no flush
 		}
 	}
-	for _, op := range in.Ops {
+	for oi, op := range in.Ops {
+		if in.Progress != "" {
+			_ = os.WriteFile(in.Progress, []byte(fmt.Sprint(oi)), 0o644)
+		}
 		oo := opOut{Points: points, Size: h.Size(), SSize: st.Size()}
 		if e := sl.Catch(func() {
 			switch op.Kind {
@@ -306,6 +315,7 @@ func gen(r *rand.Rand, i int, tier string) Case {
 		if tier == "quick" && i%4 == 3 {
 			c.Stride = 2
 		}
+		c.Strace = i%16 == 1 || (tier == "thorough" && i%4 == 1)
 	}
 	return c
 }
@@ -320,8 +330,8 @@ type model struct {
 	// entries (compaction at 110% trims to L); a clear removes what it removes.
 	lo, hi int
 	taint  string // set once an operation with a listed finding was applied (dirty stream)
-	stash [][]string
-	vars  map[string]string
+	stash  [][]string
+	vars   map[string]string
 }
 
 func eqForm(a, b []string) bool {
@@ -514,6 +524,48 @@ func (rn *runner) session(dir string, limit int, ops []Op, crashAt int) (*sessOu
 	return &so, res
 }
 
+var straceState int // 0 unknown, 1 available, 2 not
+
+func straceOK() bool {
+	if straceState == 0 {
+		straceState = 2
+		if _, err := exec.LookPath("strace"); err == nil {
+			straceState = 1
+		}
+	}
+	return straceState == 1
+}
+
+// straceSession runs a session under strace, which sends SIGKILL at the n-th
+// system call of the given kind that touches one of the persistence files.
+// It returns the operation that was running and whether the process was killed.
+func (rn *runner) straceSession(dir string, limit int, ops []Op, sys string, n int) (opi int, killed bool) {
+	rn.n++
+	inf := filepath.Join(rn.root, fmt.Sprintf("in-%d.json", rn.n))
+	outf := filepath.Join(rn.root, fmt.Sprintf("out-%d.json", rn.n))
+	prog := filepath.Join(rn.root, fmt.Sprintf("prog-%d", rn.n))
+	b, _ := json.Marshal(sessIn{Dir: dir, Limit: limit, Ops: ops, Progress: prog})
+	_ = os.WriteFile(inf, b, 0o644)
+	exe, _ := os.Executable()
+	args := []string{"-f", "-o", "/dev/null", "-e", "trace=openat,write,rename,renameat,renameat2"}
+	for _, f := range []string{"history", "history.tmp", "stash.lisp", "config.lisp"} {
+		args = append(args, "-P", filepath.Join(dir, f))
+	}
+	args = append(args, "-e", fmt.Sprintf("inject=%s:signal=SIGKILL:when=%d", sys, n), exe, "-sub", "c20sess", inf, outf)
+	cmd := exec.Command("strace", args...)
+	cmd.Dir = rn.root
+	cmd.Env = append(os.Environ(), "HOME="+filepath.Join(rn.root, "home"), "GOMAXPROCS=1")
+	err := cmd.Run()
+	opi = -1
+	if pb, e2 := os.ReadFile(prog); e2 == nil {
+		fmt.Sscan(string(pb), &opi)
+	}
+	_ = os.Remove(inf)
+	_ = os.Remove(outf)
+	_ = os.Remove(prog)
+	return opi, err != nil
+}
+
 func copyDir(src, dst string) {
 	_ = os.MkdirAll(dst, 0o755)
 	ents, _ := os.ReadDir(src)
@@ -554,7 +606,7 @@ func hasOdd(fs [][]string) string {
 	return ""
 }
 
-func exec(x *fw.Ctx, c Case) {
+func execCase(x *fw.Ctx, c Case) {
 	root := os.Getenv("VERIF_WORKDIR")
 	if root == "" {
 		root = os.TempDir()
@@ -651,25 +703,8 @@ func exec(x *fw.Ctx, c Case) {
 		if stride < 1 {
 			stride = 1
 		}
-		x.CoverN("crash-points-discovered", so.Points)
-		for p := 1; p <= so.Points; p += stride {
-			name := so.Names[p-1]
-			// which op does point p belong to?
-			opi := 0
-			for k := range so.Ops {
-				if so.Ops[k].Points < p {
-					opi = k
-				}
-			}
-			cdir := filepath.Join(root, fmt.Sprintf("crash-%d-%d", si, p))
-			copyDir(pre, cdir)
-			cso, cres := rn.session(cdir, preModel.limit, ops, p)
-			if cso == nil || cres.Exit != 137 {
-				x.Fail("crash fail=harness", "armed crash %d (%s) did not kill the session: exit=%d", p, name, cres.Exit)
-				_ = os.RemoveAll(cdir)
-				continue
-			}
-			x.Cover("crash-armed:" + name)
+		// judge what a fresh process finds after a death that fell into op opi
+		judge := func(cdir, name string, opi int) {
 			// model states just before and just after the op the crash fell into
 			before := cloneModel(preModel)
 			for k := 0; k < opi; k++ {
@@ -683,12 +718,12 @@ func exec(x *fw.Ctx, c Case) {
 			if rso == nil || !rso.Done {
 				x.Fail(sigp+" fail=recovery-died", "after a death at %s the next session failed: %v", name, rso)
 				_ = os.RemoveAll(cdir)
-				continue
+				return
 			}
 			if rso.LoadErr != "" {
 				x.Fail(sigp+" fail=load-error", "after a death at %s loading failed: %s", name, rso.LoadErr)
 				_ = os.RemoveAll(cdir)
-				continue
+				return
 			}
 			okB, _ := isView(rso.History, before)
 			okA, whyA := isView(rso.History, after)
@@ -711,7 +746,7 @@ func exec(x *fw.Ctx, c Case) {
 				x.Fail(sigp+" fail="+kind, "after a death at %s (op %d %s) the loaded history is neither the state before nor after the operation: %s\nloaded: %q", name, opi, ops[opi].Kind, whyA, rso.History)
 			}
 			if rec != nil {
-				// continue from what was recovered: first exactly enough adds to
+				// return from what was recovered: first exactly enough adds to
 				// force ONE compaction (a leftover temporary file would be merged
 				// into it), restart, then the rest of the follow-up, restart.
 				rec = cloneModel(rec)
@@ -753,7 +788,50 @@ func exec(x *fw.Ctx, c Case) {
 				}
 				x.Cover("crash-recoveries-checked")
 			}
+		}
+		x.CoverN("crash-points-discovered", so.Points)
+		for p := 1; p <= so.Points; p += stride {
+			name := so.Names[p-1]
+			// which op does point p belong to?
+			opi := 0
+			for k := range so.Ops {
+				if so.Ops[k].Points < p {
+					opi = k
+				}
+			}
+			cdir := filepath.Join(root, fmt.Sprintf("crash-%d-%d", si, p))
+			copyDir(pre, cdir)
+			cso, cres := rn.session(cdir, preModel.limit, ops, p)
+			if cso == nil || cres.Exit != 137 {
+				x.Fail("crash fail=harness", "armed crash %d (%s) did not kill the session: exit=%d", p, name, cres.Exit)
+				_ = os.RemoveAll(cdir)
+				continue
+			}
+			x.Cover("crash-armed:" + name)
+			judge(cdir, name, opi)
 			_ = os.RemoveAll(cdir)
+		}
+		// hook-independent cross-check: strace kills the session process at the
+		// N-th open / write / rename system call on the persistence files
+		if c.Strace && straceOK() {
+			for _, sys := range []string{"openat", "write", "rename,renameat,renameat2"} {
+				for n := 1; n <= 60; n++ {
+					cdir := filepath.Join(root, fmt.Sprintf("strace-%d-%s-%d", si, sys[:4], n))
+					copyDir(pre, cdir)
+					opi, killed := rn.straceSession(cdir, preModel.limit, ops, sys, n)
+					if !killed {
+						_ = os.RemoveAll(cdir)
+						break
+					}
+					if opi < 0 || len(ops) <= opi {
+						_ = os.RemoveAll(cdir)
+						continue // died while loading, before any operation
+					}
+					x.Cover("strace-kill:" + sys[:4])
+					judge(cdir, "strace:"+strings.SplitN(sys, ",", 2)[0], opi)
+					_ = os.RemoveAll(cdir)
+				}
+			}
 		}
 		_ = os.RemoveAll(pre)
 	}
@@ -815,7 +893,7 @@ func init() {
 			"distinct = distinct case JSON; every case is non-trivial (>= 2 restarts)",
 		N:        nCases,
 		Gen:      gen,
-		Exec:     exec,
+		Exec:     execCase,
 		Batch:    1,
 		HangSecs: 300,
 		Assumptions: []string{"process death, not power loss: data handed to the kernel by write(2) survives (no fsync reasoning)",
